@@ -303,6 +303,8 @@ static Verdict runCase(const Case& c, Info& info)
         info.tag("zero_padded");
     if (!c.prior.frames.empty())
         info.tag("prior_history");
+    if (frame.size() > 65536 + 24 && got.size() >= 2)
+        info.tag("frame_larger_than_64KiB_with_several_messages");
     if (nInvalid)
         info.tag("has_must_be_invalid_payload");
     if (nDontCare)
@@ -330,6 +332,11 @@ static rc::Gen<Case> genCase(int tier)
         c.msgType = *rc::gen::weightedOneOf<uint8_t>({{6, rc::gen::just<uint8_t>(1)}, {4, rc::gen::just<uint8_t>(3)}, {2, rc::gen::element<uint8_t>(2, 0xFF, 0)}, {1, range<uint8_t>(0, 255)}});
         c.seq = *anyInt<uint16_t>();
         int n = *range<int>(0, tier ? 8 : 5);
+        // one case in twelve: a frame of more than 64 KiB (several messages of tens of thousands of bytes) - offsets and remaining
+        // sizes beyond what 16 bits hold; one in twelve: a single message at the top of the 16-bit length range
+        const int sizeClass = *range<int>(0, 11);
+        if (sizeClass == 0)
+            n = *range<int>(2, 5);
         for (int i = 0; i < n; ++i)
         {
             WireMsg m;
@@ -343,6 +350,10 @@ static rc::Gen<Case> genCase(int tier)
             m.tweak = *anyInt<uint8_t>();
             m.seed = *rc::gen::arbitrary<uint32_t>();
             m.len = *rc::gen::weightedOneOf<uint32_t>({{1, rc::gen::just<uint32_t>(0)}, {6, range<uint32_t>(0, 64)}, {1, range<uint32_t>(0, tier ? 3000 : 400)}});
+            if (sizeClass == 0 && *range<int>(0, 3) != 0)
+                m.len = *rc::gen::weightedOneOf<uint32_t>({{2, range<uint32_t>(20000, 45000)}, {1, range<uint32_t>(65400, 65535)}, {1, range<uint32_t>(1000, 65535)}});
+            else if (sizeClass == 1 && i == 0)
+                m.len = *range<uint32_t>(65400, 65535);
             m.ts = *anyInt<uint64_t>();
             m.idWord = *anyInt<uint32_t>();
             m.flags = *anyInt<uint8_t>();
